@@ -35,6 +35,15 @@ def or3 : TV → TV → TV
   | some false, some false => some false
   | _, _ => none
 
+/-- n-ary AND / OR (TRUE resp. FALSE for no clause) -/
+def andAll : List TV → TV
+  | [] => some true
+  | t :: ts => and3 t (andAll ts)
+
+def orAll : List TV → TV
+  | [] => some false
+  | t :: ts => or3 t (orAll ts)
+
 /-- total order on non-NULL values (SQLite storage classes: INTEGER < TEXT) -/
 def cmpVal : Val → Val → Option Ordering
   | .null, _ => none
@@ -151,6 +160,7 @@ def stdInf (s : Sym) (a b : SV) : SV :=
   | .plus => .s (evalArith .add a.scalar b.scalar)
   | .minus => .s (evalArith .sub a.scalar b.scalar)
   | .star => .s (evalArith .mul a.scalar b.scalar)
+  | .percent => .s (evalArith .mod a.scalar b.scalar)
   | _ => .s .null
 
 open SaVerif.Pratt in
